@@ -395,7 +395,7 @@ class Dfa2Regexp:
     def instance(self, rng):
         return {'D': gen.random_dfa(rng, 3, rng.choice([['a', 'b'], ['a'], ['a', 'b', 'c'], ['a', 'b'], ['0', '1']]),
                                     rng.choice([lambda i: 'q%d' % i, lambda i: 'ABCDEFGH'[i], lambda i: ['start', 'accept', 'reject'][i],
-                                                lambda i: ['accept', 'start1', 'start'][i]])), 'len': rng.choice([3, 4, 5])}
+                                                lambda i: ['accept', 'start1', 'start'][i], lambda i: ['wait', 'accept', 'q'][i]])), 'len': rng.choice([3, 4, 5])}
 
     def own(self, inst, sc):
         return make_notebook.apply_command('dfa2regexp', [sc.file(dfa_text(inst['D']), 'dfa')])
@@ -753,6 +753,46 @@ class LanguageWords:
         return {'op': 'chk_language_from_words', 'nQ': len(A.Q), 'max': inst['max'], 'A': sorted(lang_of(A, inst['len'])), 'words': ws}
 
 
+class LanguageFile(LanguageWords):
+    """`check_<kind>_language_from_file`: the reference automaton is read from a file; the answer is an automaton text.
+    The checker is called twice on the same file, first with another length bound (a history that must not matter)."""
+    def __init__(self, kind):
+        self.kind = kind
+        self.name = kind + '_language_from_file'
+
+    def instance(self, rng):
+        inst = LanguageWords.instance(self, rng)
+        inst['len0'] = rng.choice([1, 2, 5])
+        del inst['max']
+        return inst
+
+    def own(self, inst, sc):
+        return self.text(inst['X'])
+
+    def check(self, inst, ans):
+        f = NB.check_dfa_language_from_file if self.kind == 'dfa' else NB.check_nfa_language_from_file
+        sc = Scratch()
+        try:
+            path = sc.file(self.text(inst['X']), self.kind)
+            run_checker(f, ans, path, inst['len0'])
+            return run_checker(f, ans, path, inst['len'])
+        finally:
+            sc.close()
+
+    def criterion(self, inst, ans):
+        A = self.parse(ans)
+        if A is None:
+            return False
+        X = (enc.build_dfa if self.kind == 'dfa' else enc.build_nfa)(inst['X'])
+        return lang_of(A, inst['len']) == lang_of(X, inst['len'])
+
+    def lean(self, inst, ans):
+        return None
+
+    def text_lean(self, inst, ans):
+        return {'op': 'chk_text', 'name': self.kind + '_language_file', 'answer': ans, 'ref': self.text(inst['X']), 'len': inst['len']}
+
+
 ALL = [Product('union'), Product('intersection'), Product('symmetric_difference'), Complement(), Reverse(),
        Minimal('dfa_minimize'), Minimal('dfa_hopfcroft'), Nfa2Dfa(), Dfa2Regexp(), Cyk(), Derivation('leftmost'),
-       Derivation('rightmost'), Chomsky(1), Chomsky(2), Chomsky(3), Chomsky(4), Chomsky(5), LanguageWords('dfa'), LanguageWords('nfa')]
+       Derivation('rightmost'), Chomsky(1), Chomsky(2), Chomsky(3), Chomsky(4), Chomsky(5), LanguageWords('dfa'), LanguageWords('nfa'), LanguageFile('dfa'), LanguageFile('nfa')]
